@@ -79,7 +79,7 @@ Qed.
 Lemma wf_step : forall s o, wf s -> wf (fst (step s o)).
 Proof.
   intros s o W.
-  destruct o as [v accts|chain k body relayer needs|v chain id addr sg|v chain id value|chain id e f|chain id|chain id r]; simpl.
+  destruct o as [v accts|chain k body relayer needs|v chain id addr sg|v chain id value|chain id e f|chain id|chain id r|chain id b']; simpl.
   - destruct (collides _ _ _); simpl; auto.
   - destruct W as [ND B]. split; simpl.
     + rewrite map_app. simpl. apply NoDup_snoc; auto.
@@ -110,6 +110,7 @@ Proof.
     + apply Forall_forall. intros x Hx. apply filter_In in Hx as [Hx _].
       rewrite Forall_forall in B. auto.
   - destruct (find_item _ _ _); [|exact W]. apply wf_upd; auto.
+  - destruct (find_item _ _ _); [|exact W]. apply wf_upd; auto.
 Qed.
 
 (** ** What one live step can do to an item that exists afterwards *)
@@ -138,7 +139,7 @@ Proof. intros. eapply TKeep; eauto. Qed.
 Lemma step_trans : forall s o it', wf s -> live_op o -> In it' (st_items (fst (step s o))) -> trans s o it'.
 Proof.
   intros s o it' W L Hin.
-  destruct o as [v accts|chain k body relayer needs|v chain id addr sg|v chain id value|chain id e f|chain id|chain id r];
+  destruct o as [v accts|chain k body relayer needs|v chain id addr sg|v chain id value|chain id e f|chain id|chain id r|chain id b'];
     simpl in Hin.
   - destruct (collides _ _ _); simpl in Hin; now apply keep_self.
   - simpl in Hin. apply in_app_or in Hin as [Hin|[<-|[]]]; [now apply keep_self|].
@@ -173,6 +174,7 @@ Proof.
     eapply TClear; eauto; destruct (is_fee_payer (it_kind it)); reflexivity.
   - destruct (find_item (st_items s) chain id) as [it0|] eqn:EF; [|now apply keep_self].
     simpl in Hin. apply filter_In in Hin as [Hin _]. now apply keep_self.
+  - destruct L.
   - destruct L.
 Qed.
 
@@ -210,6 +212,16 @@ Proof.
   destruct (it_id it =? id); [|now apply H]. exact (H _ Hit).
 Qed.
 
+Lemma replace_nodup : forall s chain id b it',
+  (forall it, In it (st_items s) -> sigs_nodup it) ->
+  In it' (st_items (fst (step s (OpReplace chain id b)))) -> sigs_nodup it'.
+Proof.
+  intros s chain id b it' H Hin. simpl in Hin.
+  destruct (find_item (st_items s) chain id); [|now apply H].
+  simpl in Hin. apply in_upd_item in Hin as (it & Hit & ->).
+  destruct (it_id it =? id); [|now apply H]. exact (H _ Hit).
+Qed.
+
 Lemma run_snoc : forall ops o, run (ops ++ [o]) = fst (step (run ops) o).
 Proof. intros. unfold Queue.run, Queue.run_from. now rewrite fold_left_app. Qed.
 
@@ -226,11 +238,12 @@ Proof.
   induction ops as [|o ops IH] using rev_ind; intros it Hin.
   - destruct Hin.
   - rewrite run_snoc in Hin.
-    assert (L : live_op o \/ exists c i r, o = OpReassign c i r).
-    { destruct o; simpl; eauto. }
-    destruct L as [L|(c & i & r & ->)].
+    assert (L : live_op o \/ (exists c i r, o = OpReassign c i r) \/ (exists c i b, o = OpReplace c i b)).
+    { destruct o; simpl; eauto 6. }
+    destruct L as [L|[(c & i & r & ->)|(c & i & b & ->)]].
     + apply (trans_nodup (run ops) o); [exact IH|]. apply step_trans; [apply wf_run|exact L|exact Hin].
     + eapply reassign_nodup; eauto.
+    + eapply replace_nodup; eauto.
 Qed.
 
 (** ** Signatures are discarded when the signing bytes change *)
@@ -288,6 +301,29 @@ Proof.
       * split; simpl.
         -- now rewrite <- Eb.
         -- exists ops, [], x. simpl. rewrite <- Ei, <- Ec, <- Eb. repeat split; auto. now rewrite Eo.
+Qed.
+
+(** ** Put{MsgIDToReplace} for an arbitrary new body: when is a caller harmless?  Exactly when the replaced item has no
+    signatures or the new body leaves the signing bytes as they are.  (The fee attachment of the end-blocker is such a
+    caller: SetElectedGasEstimate has emptied SignData in the same cache context.  A caller that changes covered fields
+    of a signed item is not: [replace_keeps_stale_sigs_witness].) *)
+Definition all_sigs_valid (s : state) : Prop :=
+  forall it e, In it (st_items s) -> In e (it_sigs it) -> verify (sign_bytes it) (se_sig e) (se_key e) = true.
+
+Theorem replace_safe_all : forall s chain id b, wf s -> all_sigs_valid s ->
+  (forall it, find_item (st_items s) chain id = Some it ->
+              it_sigs it = [] \/ sign_bytes (with_body it b) = sign_bytes it) ->
+  all_sigs_valid (fst (step s (OpReplace chain id b))).
+Proof.
+  intros s chain id b W V Hs it' e Hin He. simpl in Hin.
+  destruct (find_item (st_items s) chain id) as [it0|] eqn:EF; [|now apply V].
+  simpl in Hin. apply in_upd_item in Hin as (it & Hit & ->).
+  destruct (it_id it =? id) eqn:E; [|now apply V].
+  apply Z.eqb_eq in E. apply find_item_some in EF as (H0 & Hid & Hch).
+  assert (it = it0) as -> by (apply (nodup_id_unique (st_items s)); [apply W|auto|auto|congruence]).
+  destruct (Hs it0 eq_refl) as [Hn|Hb].
+  - simpl in He. rewrite Hn in He. destruct He.
+  - rewrite Hb. apply V; auto.
 Qed.
 
 End Proofs.
@@ -353,6 +389,22 @@ Lemma reassign_keeps_stale_sigs_witness :
   exists it e, In it (st_items (run isig iverify reassign_witness_ops)) /\ In e (it_sigs it) /\
     iverify (sign_bytes it) (se_sig e) (se_key e) = false /\
     (forall it0, In it0 (st_items (run isig iverify (firstn 4 reassign_witness_ops))) ->
+       forall e0, In e0 (it_sigs it0) -> iverify (sign_bytes it0) (se_sig e0) (se_key e0) = true).
+Proof.
+  vm_compute. do 2 eexists. split; [left; reflexivity|]. split; [left; reflexivity|]. split; [reflexivity|].
+  intros it0 [<-|[]] e0 [<-|[]]. reflexivity.
+Qed.
+
+(** Put{MsgIDToReplace} keeps SignData whatever the new body is: a caller that swaps the body of a SIGNED item for one
+    with other signing bytes (a valset update pointed to another valset id, say) leaves signatures behind that no longer
+    verify. *)
+Definition replace_witness_ops : list (op isig) :=
+  firstn 4 ex_ops_signed ++ [ OpReplace 1 1 99 ].
+
+Lemma replace_keeps_stale_sigs_witness :
+  exists it e, In it (st_items (run isig iverify replace_witness_ops)) /\ In e (it_sigs it) /\
+    iverify (sign_bytes it) (se_sig e) (se_key e) = false /\
+    (forall it0, In it0 (st_items (run isig iverify (firstn 4 replace_witness_ops))) ->
        forall e0, In e0 (it_sigs it0) -> iverify (sign_bytes it0) (se_sig e0) (se_key e0) = true).
 Proof.
   vm_compute. do 2 eexists. split; [left; reflexivity|]. split; [left; reflexivity|]. split; [reflexivity|].
